@@ -74,6 +74,21 @@ NEEDS = {
  "C18-12": "Option::batch_check stops at the first None (as C10-4, found independently)",
  "C18-13": "BTreeMap input with a repeated key: assert_eq on the length panics",
  "C18-14": "String with a non-ASCII character: length prefix counts characters",
+ "C05-15": "checked msm of a group using the trait's default body (PairingOutput) with fewer bases than scalars: Err carries the longer length",
+ "C05-16": "msm_chunks with a stream length that is a positive exact multiple of 2^20: last chunk dropped",
+ "C05-17": "digit count num_bits/c+1 at two sites: 256-bit scalar field with 257..1024 pairs (c = 8 divides 256): index out of bounds",
+ "C09-15": "a mode-pinning wrapper around a curve point deserialized in the mode opposite to its pinned one: decodes with the caller's mode",
+ "C09-16": "twisted Edwards curve over a base field whose bit length is a multiple of 8, uncompressed: size counts a flag byte that is never written (no shipped curve)",
+ "C09-17": "from_random_bytes_with_flags on a field whose flags live in the extra byte (256-bit, 64-bit, 255+2): flags read from the wrong byte",
+ "C10-15": "twisted Edwards compressed encoding with y = +-sqrt(a/d) (Bandersnatch only: 4 byte strings): division by zero panics",
+ "C10-16": "VecDeque decoder reserves `len` elements from the untrusted prefix again (bypasses the cap)",
+ "C10-17": "UncompressedChecked<T> pinned to Validate::No: invalid uncompressed encodings accepted through that wrapper",
+ "C14-15": "parallel sparse evaluate_over_domain: one run-start per thread zipped with par_chunks_mut: pools not dividing the size with size >= 16*threads leave a tail of zeros",
+ "C14-16": "parallel Horner without the chunk floor: 16 < #coefficients < pool size: par_chunks(0) panics",
+ "C14-17": "parallel batch inversion of the empty slice: par_chunks_mut(0) panics",
+ "C18-15": "String payload read with raw read in blocks: ErrorKind::Interrupted inside the payload surfaces as an error",
+ "C18-16": "Option tag decoded as u8 != 0: bytes 2..255 accepted as Some",
+ "C18-17": "serialize_to_vec! writes its LAST argument compressed and the others uncompressed",
 }
 conf = {}
 for f in ['/verif/seeded/confirmations.txt']:
@@ -89,7 +104,7 @@ for d in sorted(glob.glob('/verif/seeded/C*')):
     caught = {p: (r['exit'] == 1 and r['VIOLATION_lines'] > 0) for p, r in cr.items()}
     meta = {
         "id": sid, "property": sid.split('-')[0], "title": title,
-        "written_by": "independent sub-agent given only the property text and its own scratch worktree (round %d)" % (1 if int(sid.split('-')[1]) <= 2 else 2 if int(sid.split('-')[1]) <= 5 else 3 if int(sid.split('-')[1]) <= 8 else 4 if int(sid.split('-')[1]) <= 11 else 5),
+        "written_by": "independent sub-agent given only the property text and its own scratch worktree (round %d)" % (1 if int(sid.split('-')[1]) <= 2 else 2 if int(sid.split('-')[1]) <= 5 else 3 if int(sid.split('-')[1]) <= 8 else 4 if int(sid.split('-')[1]) <= 11 else 5 if int(sid.split('-')[1]) <= 14 else 6),
         "needs_to_manifest": NEEDS.get(sid, ""),
         "files": ["patch.diff", "demo.rs", "notes.md"] + (["demo_crate/"] if os.path.isdir(d+'/demo_crate') else []) + (["example_replay.json"] if os.path.exists(d+'/example_replay.json') else []),
         "my_confirmation": conf.get(sid, "pending"),
